@@ -18,13 +18,15 @@
 (***************************************************************************)
 EXTENDS HeightCacheOps, TLC, Json
 
-CONSTANTS Cap,          \* capacity of the MemoryCache (rootmulti.MemoryCacheCapacity; small here so eviction happens)
+CONSTANTS Vals,         \* value codes blocks may write (subset of {EMPTY, 1, 2, ...})
+          Cap,          \* capacity of the MemoryCache (rootmulti.MemoryCacheCapacity; small here so eviction happens)
           MaxH,         \* blocks per history
           Dev,          \* deviations of the code that are switched on (subset of Deviation)
+          Restarts,     \* BOOLEAN: process restarts (Reload) are part of the instance
           RecordHist
 
-VARIABLES work,     \* [Key -> 0..NV]   working IAVL tree of the substore (both nodes)
-          saved,    \* Seq([Key -> 0..NV]); saved[h] = tree version h (both nodes; nothing is pruned)
+VARIABLES work,     \* [Key -> Vals \cup {NIL}]  working IAVL tree of the substore (both nodes)
+          saved,    \* Seq([Key -> Vals \cup {NIL}]); saved[h] = tree version h (both nodes; nothing is pruned)
           cache,    \* node A only: [cur, past]  (HeightCacheOps)
           hist      \* generation only
 
@@ -58,12 +60,16 @@ Commit ==
     /\ Becomes(CommitResult(St))
     /\ hist' = Rec([op |-> "Commit", h |-> Height + 1, view |-> work])
 
+\* A restart discards uncommitted writes, so a restart in the middle of a block reaches the same
+\* state as a restart at the last block boundary: modelled at block boundaries only.
 Reload ==
+    /\ Restarts
+    /\ work = (IF Height = 0 THEN EmptyMap ELSE saved[Height])
     /\ Becomes(ReloadResult(St))
     /\ hist' = Rec([op |-> "Reload", h |-> Height])
 
 Next ==
-    \/ \E k \in Key, v \in 1..NV : Set(k, v)
+    \/ \E k \in Key, v \in Vals : Set(k, v)
     \/ \E k \in Key : Remove(k)
     \/ Commit
     \/ Reload
@@ -100,8 +106,8 @@ C10_CacheTransparent_Witness ==
 
 \* ---- supporting invariants (the cache as a data structure) ----
 TypeOK ==
-    /\ work \in [Key -> 0..NV]
-    /\ \A h \in 1..Height : saved[h] \in [Key -> 0..NV]
+    /\ work \in [Key -> Vals \cup {NIL}]
+    /\ \A h \in 1..Height : saved[h] \in [Key -> Vals \cup {NIL}]
     /\ Len(cache.past) = Cap
     /\ cache.cur.height \in 0..MaxH
 
